@@ -246,10 +246,11 @@ const (
 	BCanceledOut        // context.Canceled together with outputs
 	BWrappedCanceledOut // an error wrapping context.Canceled together with outputs
 	BOutEmpty           // success with an empty, non-nil slice of outputs
+	BAckAsyncErr        // hands the message to a goroutine that Acks it, and returns an error at once (the router's Nack races it)
 	NBehaviours
 )
 
-var behaviourNames = []string{"out0", "out1", "out2", "err", "err+out", "panic(str)", "panic(err)", "panic(nil)", "ack;ok", "ack;err", "ack;panic", "nack;ok", "nack;err", "nack;panic", "canceled+out", "wrapped-canceled+out", "out-empty-slice"}
+var behaviourNames = []string{"out0", "out1", "out2", "err", "err+out", "panic(str)", "panic(err)", "panic(nil)", "ack;ok", "ack;err", "ack;panic", "nack;ok", "nack;err", "nack;panic", "canceled+out", "wrapped-canceled+out", "out-empty-slice", "ack-in-goroutine;err"}
 
 func (b Behaviour) String() string { return behaviourNames[b] }
 
@@ -305,6 +306,9 @@ func (b Behaviour) Do(m *message.Message) ([]*message.Message, error) {
 		panic("scripted handler panic")
 	case BOutEmpty:
 		return []*message.Message{}, nil
+	case BAckAsyncErr:
+		go m.Ack()
+		return nil, ErrHandler
 	case BCanceledOut:
 		return Outputs(m, 2), context.Canceled
 	case BWrappedCanceledOut:
